@@ -5,6 +5,9 @@ and must not say NOT EXPLORED. Results: /verif/refactorings/results.json. usage:
 import json, os, subprocess, sys, time, threading, queue
 T = {"job": ["C14", "C13"], "server": ["C09", "C14", "C20", "C13"], "mux": ["C20", "C09"], "params": ["C16", "C10", "C09", "C13"],
      "psio": ["C11", "C15", "C19"], "main": ["C19", "C15", "C08", "C11", "C12", "C17"], "tree": ["C18", "C08"], "proving": ["C07", "C08", "C12", "C11", "C13"]}
+if '--changed-only' in sys.argv:
+    # the checks whose machinery changed in round five (scheduler runtime, instrumenter, new phases)
+    T = {"job": ["C14", "C13"], "server": ["C14", "C20", "C13"], "mux": ["C20"], "params": ["C16", "C10"], "psio": ["C11", "C15", "C19"], "main": ["C19", "C17", "C12"], "proving": ["C07", "C12", "C13"]}
 lanes = int(sys.argv[sys.argv.index('--lanes') + 1]) if '--lanes' in sys.argv else 2
 q = queue.Queue()
 for n, ids in T.items():
